@@ -126,6 +126,8 @@ func c18(c *Check) {
 	})
 	c.Extra["frozen_entries"] = nfz
 
+	c.Rule("C18/authorised-relayer-is-found", "frozen table (shared with C06/relayer-registry): AuthRelayer finds a registration by scanning the record's whole chain list in the order it was stored (no search that presumes an order the registry does not keep), so an update from the authorised account is not refused", 3)
+	c.FrozenFiltered("C06", "C18/authorised-relayer-is-found", func(fn string) bool { return strings.HasSuffix(fn, "Keeper.AuthRelayer") })
 	c.Rule("C18/stored-exactly-once", "every success path of create / upgrade / toggle / update stores the client state exactly once (a success that silently skips the store — e.g. only when the height advanced — leaves the previous client in place; TSS heights never advance)", 4)
 	for _, f := range []string{"CreateClient", "UpgradeClient", "ToggleClient", "UpdateClient"} {
 		fn := c.F(clKeeper + "Keeper." + f)
